@@ -79,3 +79,26 @@ PROPS["C09"] = {
     ],
     "design_ref": "DESIGN.md §7 C09",
 }
+
+PROPS["C06"] = {
+    "title": "Frames on the wire",
+    "module": "Theorems.C06",
+    "theorems": [
+        "Amqp.Frame.body_of_encoder",
+        "Amqp.Frame.encoder_of_negotiated",
+        "Amqp.Frame.transfer_split",
+        "Amqp.Frame.chunking_exact",
+        "Amqp.Frame.frames_bounded",
+        "Amqp.Frame.stream_partition_indep",
+        "Amqp.Frame.wire_decodes",
+    ],
+    "harness": ["frame"],
+    "gen_files": ["Amqp/Gen/FrameKernels.lean"],
+    "technique": "Lean 4 proof over all payloads, frame sizes and read partitions (list induction; size arithmetic generated from frames/amqp.rs and transport/mod.rs) + byte-exact differential runs through transport::Transport and an independent frame parser",
+    "level_text": "Machine-checked theorems for every payload length, every max-frame-size and every partition of the byte stream: continuation frames are exactly full, payload pieces concatenate to the payload, start_send's re-chunking coincides with the frame boundaries, no wire frame exceeds max-frame-size, the stream decoder's output depends only on the bytes received and recovers exactly the frames written. The size constants/conditions are regenerated from the source; the model's bytes are compared with what the real Transport writes (byte-exact) and an independent parser evaluates the property on the real bytes.",
+    "level_note": "Trusted: Lean kernel; rs2lean; tokio_util::LengthDelimitedCodec as modelled in Amqp/Frame.lean (big-endian 4-byte length that counts itself, limit compared with the length field) — checked by the differential runs; performative encodings are opaque byte strings here (C03/C05), subject to the explicit Fits hypotheses (setting `more` never shortens the encoding; the performative fits a frame), whose satisfaction is measured on every generated case. A non-transfer frame larger than max-frame-size is outside the theorem (it cannot occur for the performatives of bounded size; noted in DESIGN.md).",
+    "assumptions": COMMON_ASSUME + [
+        "Fits: p0.length <= p1.length <= B, p2.length < B, p3.length <= p2.length (measured: satisfied by every generated transfer)",
+    ],
+    "design_ref": "DESIGN.md §7 C06",
+}
